@@ -58,6 +58,19 @@ def _c16_int_truncation(v, scn, params):
     )
 
 
+@matcher("c16_rolling_years_summed_by_calendar_year")
+def _c16_rolling_years(v, scn, params):
+    """D16: a year-defined variable given an amount over a multi-year period that does
+    not start in January: the spreading code tiles it with year-long pieces from its
+    start, calculate_add sums calendar years (Period.get_subperiods)."""
+    return (
+        v.get("clause") == "C16.conserve"
+        and v.get("unit") == "year"
+        and v.get("rule") == "divide"
+        and v.get("rolling_years_of_a_year_variable") is True
+    )
+
+
 @matcher("c14_annualized_spiral")
 def _c14_annualized_spiral(v, scn, params):
     """D12: an annualised variable computes a non-January month by asking for its own
